@@ -1628,7 +1628,8 @@ fn const_eval_intrinsic(
                 };
                 Ok(Some(Constant::unique(lookup.context, c)))
             }
-            (ConstantValue::U256(val1), ConstantValue::U256(val2)) => {
+            (ConstantValue::U256(val1), ConstantValue::U256(val2))
+            | (ConstantValue::B256(val1), ConstantValue::B256(val2)) => {
                 let c = ConstantContent {
                     ty: Type::get_bool(lookup.context),
                     value: ConstantValue::Bool(val1 > val2),
@@ -1650,7 +1651,8 @@ fn const_eval_intrinsic(
                 };
                 Ok(Some(Constant::unique(lookup.context, c)))
             }
-            (ConstantValue::U256(val1), ConstantValue::U256(val2)) => {
+            (ConstantValue::U256(val1), ConstantValue::U256(val2))
+            | (ConstantValue::B256(val1), ConstantValue::B256(val2)) => {
                 let c = ConstantContent {
                     ty: Type::get_bool(lookup.context),
                     value: ConstantValue::Bool(val1 < val2),
